@@ -123,13 +123,13 @@ def read_schema() -> Dict[str, Any]:
                 poc = chain[i + 1].original_class().__name__
                 parent[cid] = SYMBOL_ID if poc == "Symbol" else c04.CLASS_ID[poc]
         m = sqlalchemy.inspect(dao)
-        known = {f.lstrip("_"): (f, kind) for f, kind, _t, _o in c04.REFS.get(cn, [])}
+        known = {c04.DAOKEY.get((cn, f), f.lstrip("_")): (f, kind) for f, kind, _t, _o in c04.REFS.get(cn, [])}
         tags = []
         for r in m.relationships:
             if r.key not in known:
                 raise RuntimeError(f"{dao.__name__}.{r.key}: relationship unknown to the class table of harness/c04.py")
             f, kind = known[r.key]
-            t = tag5(c04.TAGS((r.key, kind)))
+            t = tag5(c04.TAGS((f.lstrip("_"), kind)))
             tags.append(t)
             if kind == "many":
                 if r.secondary is None:
@@ -362,6 +362,8 @@ def gen_model(rng: core.Rng, idx: int) -> Dict[str, Any]:
         for j in range(rng.randint(0, 2)):
             tg = [m for m in names if m != n]
             fl.append((f"l{i}_{j}", "many", rng.choice(tg)))
+        if altm and i == 0 and not any(k != "scalar" for _f, k, _t in fl):
+            fl.append(("lalt", "many", names[2]))      # the alternatively mapped class has at least one relationship (renamed by its mapping)
         if altm and i == 1:
             fl.append(("rsub", "one", names[2]))       # relationship declared on the subclass of the alternatively mapped class
         if altm and i == 2:
@@ -380,17 +382,19 @@ def gen_model(rng: core.Rng, idx: int) -> Dict[str, Any]:
         return root_of(base[x]) if base[x] else x
     frozen_roots = {n for n in names if base[n] is None and not (altm and n == names[0]) and rng.chance(0.3)}
     frozen = [n for n in names if root_of(n) in frozen_roots]
+    # classes with a __new__ of their own (instance counting): inspect.signature(cls) is then (*args, **kwargs), not __init__'s
+    own_new = [n for n in names if rng.chance(0.25)]
     order = list(names)
     rng.shuffle(order)      # the order in which the classes are handed to ClassDiagram / ORMatic: any order (280300b orders the output)
     return {"idx": idx, "names": names, "base": base, "own": own, "required": required, "falsy": falsy, "umid": umid, "order": order,
-            "alt": names[0] if altm else None, "frozen": frozen}
+            "alt": names[0] if altm else None, "frozen": frozen, "own_new": own_new}
 
 
 def model_source(md) -> str:
     dflt = {"int": "0", "float": "0.0", "str": "''", "bool": "False", "Optional[float]": "None", "Optional[int]": "None",
             "List[str]": "field(default_factory=list)"}
     out = ["from __future__ import annotations", "from dataclasses import dataclass, field", "from typing import List, Optional",
-           "from krrood.ormatic.dao import AlternativeMapping", "", ""]
+           "from krrood.ormatic.dao import AlternativeMapping", "", "COUNTS = {}", "", ""]
     for n in md["names"]:
         parent = md["base"][n]
         u = md.get("umid", {}).get(n)
@@ -413,6 +417,9 @@ def model_source(md) -> str:
                 out.append(f"    {f}: {t} = None" if f in md.get("required", []) else f"    {f}: Optional[{t}] = None")
             else:
                 out.append(f"    {f}: List[{t}] = field(default_factory=list)")
+        if n in md.get("own_new", []):
+            out += ["", "    def __new__(cls, *args, **kwargs):", "        COUNTS[cls.__name__] = COUNTS.get(cls.__name__, 0) + 1",
+                    "        return super().__new__(cls)"]
         if n in md.get("falsy", {}):
             how, f = md["falsy"][n]
             out += ["", f"    def __len__(self):", f"        return len(self.{f})"] if how == "len" else ["", f"    def __bool__(self):", f"        return bool(self.{f})"]
@@ -422,8 +429,11 @@ def model_source(md) -> str:
         fl = [tuple(x) for x in md["own"][a]]
         out.append("@dataclass")
         out.append(f"class {a}Mapping(AlternativeMapping[{a}]):")
+        first_rel = next((f for f, k, _t in fl if k != "scalar"), None)
+        def mname(j, f):
+            return ("stored_" + f) if (j == 0 or f == first_rel) else f    # the first column and the first relationship are renamed
         for j, (f, kind, t) in enumerate(fl):
-            mf = ("stored_" + f) if j == 0 else f            # the first column is renamed by the mapping
+            mf = mname(j, f)
             if kind == "scalar":
                 out.append(f"    {mf}: {t}")
             elif kind == "one":
@@ -431,7 +441,7 @@ def model_source(md) -> str:
             else:
                 out.append(f"    {mf}: List[{t}]")
         args = ", ".join(f"obj.{f}" for f, _k, _t in fl)
-        back = ", ".join(f"self.{('stored_' + f) if j == 0 else f}" for j, (f, _k, _t) in enumerate(fl))
+        back = ", ".join(f"self.{mname(j, f)}" for j, (f, _k, _t) in enumerate(fl))
         out += ["", "    @classmethod", "    def create_instance(cls, obj):", f"        return cls({args})", "",
                 "    def create_from_dao(self):", f"        return {a}({back})", "", ""]
     return "\n".join(out)
@@ -484,19 +494,24 @@ def install_model(md, workdir) -> None:
     c04.SCAL = {n: [f for c in mro(n) for f, k, _t in decl(c) if k == "scalar"] for n in names}
     c04.SCAL_TYPES = {n: {f: t for c in mro(n) for f, k, t in decl(c) if k == "scalar"} for n in names}
     info = {n: {f: (k, t) for c in mro(n) for f, k, t in own[c] if k != "scalar"} for n in names}
+    alt0 = md.get("alt")
+    first_rel = next((f for f, k, _t in own[alt0] if k != "scalar"), None) if alt0 else None
+    c04.DAOKEY = {(n, first_rel): "stored_" + first_rel for n in names if alt0 and first_rel and alt0 in mro(n)}
     c04.REFS = {}
     for n in names:
         keys = [r.key for r in sqlalchemy.inspect(get_dao_class(getattr(mod, n))).relationships]
-        missing = set(info[n]) - set(keys)
+        back = {c04.DAOKEY.get((n, f), f): f for f in info[n]}           # DAO relationship key -> object field
+        missing = set(back) - set(keys)
         if missing:
             raise RuntimeError(f"{n}: no relationship generated for reference fields {sorted(missing)}")
-        c04.REFS[n] = [(k, info[n][k][0], info[n][k][1], True) for k in keys if k in info[n]]
+        c04.REFS[n] = [(back[k], info[n][back[k]][0], info[n][back[k]][1], True) for k in keys if k in back]
     c04.SCAL["_Holder"], c04.REFS["_Holder"] = [], [("items", "many", "_Holder", False)]
     extra = []
     if alt:      # the mapping object can show up in a result (finding C04-a): same columns (first one renamed), same relationships
         sc = list(c04.SCAL[alt])
         c04.SCAL[alt + "Mapping"] = ["stored_" + sc[0]] + sc[1:]
-        c04.REFS[alt + "Mapping"] = list(c04.REFS[alt])
+        c04.REFS[alt + "Mapping"] = [(c04.DAOKEY.get((alt, f), f), k, t, o) for f, k, t, o in c04.REFS[alt]]
+        c04.TAGNAME = {(alt + "Mapping", c04.DAOKEY.get((alt, f), f)): f for f, _k, _t, _o in c04.REFS[alt]}
         extra = [alt + "Mapping"]
     c04.CLASS_ID = {n: i + 1 for i, n in enumerate(names + extra + ["_Holder"])}
     c04.ROOT_KINDS = list(names)
